@@ -9,7 +9,7 @@
    orbit / uni / posix are oracles for unicode.SimpleFold orbits, Unicode tables and POSIX
    classes: the theorems hold for EVERY choice of them. *)
 From Coq Require Import ZArith List Bool String.
-From Elk Require Import Model.C21_RegexSyntax Model.C21_RegexSem Model.C21_RegexExt Model.C03_RegexFront Proofs.C21_Regex Proofs.C21_RegexX.
+From Elk Require Import Model.C21_RegexSyntax Model.C21_RegexSem Model.C21_RegexExt Model.C21_Compose Model.C03_RegexFront Proofs.C21_Regex Proofs.C21_RegexX Proofs.C21_Compose.
 Import ListNotations.
 Open Scope Z_scope.
 
@@ -68,6 +68,73 @@ Theorem C21_repeat : forall orbit uni posix (s : list Z) f a n X,
   fst (me orbit uni posix s f (repeat_tree a n)) X = titer (count n) (fst (me orbit uni posix s f a)) X.
 Proof. exact repeat_denotation. Qed.
 Print Assumptions C21_repeat.
+
+(* Composition TERMS (third pass).  A term (Model/C21_Compose.v) is built from leaves - regex
+   literals, each with its own flag set and syntax tree - with `+` and `* n` in any nesting;
+   cden is its denotation, defined on the term from the leaf denotations alone (leaf: me under the
+   leaf's flags; `+`: composition; `* n`: n-fold iteration).  ctree t is the regex VALUE the
+   implementation is to build for the term, step by step as value/regex.go does: every `+`
+   compiles "(?f1:src1)(?f2:src2)" with no flags, every `* n` compiles "(?:src){n}" under the
+   receiver's flags, the sources being those of the values built so far.  For every term that
+   value denotes the composition of the leaf denotations: induction on the term with C21_concat /
+   C21_repeat as the two steps.  (`(%/x/ + %/y/) * 2` denotes (x;y)^2 - accepts "xyxy", not "xyy".) *)
+Theorem C21_compose_sound : forall orbit uni posix (s : list Z) t X,
+  fst (me orbit uni posix s (fst (ctree t)) (snd (ctree t))) X = cden orbit uni posix s t X.
+Proof. exact compose_sound. Qed.
+Print Assumptions C21_compose_sound.
+
+(* The denotation of a term does not depend on HOW the sources are wrapped: whatever functions
+   build the value of `+` (catw) and of `*` (repw) - with or without redundant groups, with the
+   flags pushed into groups or carried by the value - if ONE step of each has the denotation of
+   C21_concat / C21_repeat, every nesting of them has the denotation cden.  (A wrapper that is
+   right on single literals only, like "skip the (?:..) when the source starts with `(` and ends
+   with `)`", fails the one-step hypothesis on sources such as `(?:x)(?:y)`.) *)
+Theorem C21_compose_any_wrapping : forall orbit uni posix (s : list Z)
+    (catw : flags -> re -> flags -> re -> flags * re) (repw : flags -> re -> list Z -> flags * re),
+  (forall f1 a1 f2 a2 X,
+     fst (me orbit uni posix s (fst (catw f1 a1 f2 a2)) (snd (catw f1 a1 f2 a2))) X
+     = fst (me orbit uni posix s f2 a2) (fst (me orbit uni posix s f1 a1) X)) ->
+  (forall f a n X,
+     fst (me orbit uni posix s (fst (repw f a n)) (snd (repw f a n))) X
+     = titer (count n) (fst (me orbit uni posix s f a)) X) ->
+  forall t X,
+    fst (me orbit uni posix s (fst (ctree_with catw repw t)) (snd (ctree_with catw repw t))) X
+    = cden orbit uni posix s t X.
+Proof. exact compose_with_sound. Qed.
+Print Assumptions C21_compose_any_wrapping.
+
+(* ... and through the transpiler (C21_transpile_sound on the composed value): when no leaf
+   brings extended mode in and the transpiler reports no failure, the Go matcher compiled for the
+   composed value accepts exactly the subjects the TERM denotes; the value carries the flags
+   cflags t (none after `+`, the receiver's after `*`). *)
+Theorem C21_compose_transpile_sound : forall orbit uni posix (s : list Z) t,
+  fx (fst (ctree t)) = false -> sets_x (snd (ctree t)) = false ->
+  transpile_text (fst (ctree t)) (snd (ctree t)) <> None ->
+  matches_re2 orbit uni posix s (transpile (fst (ctree t)) (snd (ctree t))) = cmatches orbit uni posix s t
+  /\ fst (ctree t) = cflags t.
+Proof. intros. split; [apply compose_transpile_sound; assumption|apply ctree_flags]. Qed.
+Print Assumptions C21_compose_transpile_sound.
+
+(* (%/x/ + %/y/i) * 2: the value is "(?:(?:x)(?i:y)){2}" and the term accepts xyxy, xYxy but not
+   xyy; the tree of "(?:x)(?i:y){2}" (the quantifier bound to the LAST group only) accepts xyy and
+   rejects xyxy, so the two are told apart by the subjects the stream draws. *)
+Example C21_compose_nonvacuous :
+  let none := fun (_ : list Z) (_ : Z) => false in
+  let orbit := fun c => if c =? 121 then [89] else if c =? 89 then [121] else [] in
+  let fi_only := mkFlags true false false false false false in
+  let t := CRep (CCat (CLeaf no_flags (RAtom (AChar 120))) (CLeaf fi_only (RAtom (AChar 121)))) [50] in
+  let wrong := RConcat [RGroup GNonCapture (Some (RAtom (AChar 120)));
+                        RQuant (QN [50]) false (RGroup (GFlags fi_only no_flags) (Some (RAtom (AChar 121))))] in
+  transpile_text (fst (ctree t)) (snd (ctree t)) = Some (str "(?:(?:x)(?i:y)){2}"%string) /\
+  cmatches orbit none none (str "xyxy"%string) t = true /\
+  cmatches orbit none none (str "xYxy"%string) t = true /\
+  cmatches orbit none none (str "xyy"%string) t = false /\
+  matches_re2 orbit none none (str "xyxy"%string) (transpile (fst (ctree t)) (snd (ctree t))) = true /\
+  matches_re2 orbit none none (str "xyy"%string) (transpile (fst (ctree t)) (snd (ctree t))) = false /\
+  transpile_text no_flags wrong = Some (str "(?:x)(?i:y){2}"%string) /\
+  matches_elk orbit none none (str "xyy"%string) no_flags wrong = true /\
+  matches_elk orbit none none (str "xyxy"%string) no_flags wrong = false.
+Proof. vm_compute. repeat split; reflexivity. Qed.
 
 (* Extended mode (x) is defined on the source: comments and whitespace are removed before
    parsing.  The faithful model violates this: `a # x|y\nb` with flag x is parsed (by the model of
